@@ -1,11 +1,167 @@
+/-
+Oracle topic c13: the executable models of the cache entry codec and of fileCache.Add.
+
+  c13 steps                                  → "<addSteps> | <addCleanup> | fresh=<0|1> fromTemp=<0|1> toFinal=<0|1>"
+  c13 magic                                  → hex
+  c13 ser <verhex> <offs|-> <exechex> <sm|->  → hex of serialize (CRC-32C)      offs = a,b,c   sm = a:b,c:d
+  c13 deserfixed <verhex> <entryhex>         → the same for the REPAIRED reader (finding switch crcAlways = true)
+  c13 deser <verhex> <entryhex>              → ok offs=<..> execlen=<n> execcrc=<n> sm=<..> | stale | err <msg> | panic <msg>
+  c13 get <verhex> <entryhex|none>           → code=<0|1> deleted=<0|1> error=<msg|-> recompiled=<0|1>
+  c13 crash <point> <N> <len> <keep|->       → state of the directory after a single writer of a <len>-byte entry died
+                                               right after <point> (createTemp|copy|sync|close|rename|mid; mid = N bytes copied),
+                                               then (keep ≠ -) a power loss keeping max(synced, keep) bytes of every file:
+                                               "final=<none|full|part:n> temps=<n,…|->"
+  c13 sched <len0,len1,…> <ev,ev,…> <keep|-> → the same for several writers of one key under a schedule
+                                               ev = r<i> | f<i> | d ; writer i writes len_i bytes of value i+1
+-/
 import Oracle.Util
+import Wz.Model.CacheEntry
+import Wz.Model.CacheEntryFixed
+import Wz.Model.FileCache
 namespace Oracle.C13
 open Oracle
+open Wz.Model
 
-/-- Topic state (stub: no model behind this topic yet). -/
 abbrev St := Unit
 def init : St := ()
 
-def step (st : St) (_args : List String) : St × String := (st, "bad-op")
+/-- tail-recursive hex parser (entries can be hundreds of kilobytes) -/
+def hexVal (c : Char) : Option Nat :=
+  if c.isDigit then some (c.toNat - '0'.toNat)
+  else if 'a' ≤ c ∧ c ≤ 'f' then some (c.toNat - 'a'.toNat + 10)
+  else if 'A' ≤ c ∧ c ≤ 'F' then some (c.toNat - 'A'.toNat + 10)
+  else none
+
+def parseHexBytes (s : String) : Option (List Nat) :=
+  if s == "-" then some [] else
+  let rec go (cs : List Char) (acc : Array Nat) : Option (List Nat) :=
+    match cs with
+    | [] => some acc.toList
+    | [_] => none
+    | a :: b :: rest =>
+      match hexVal a, hexVal b with
+      | some x, some y => go rest (acc.push (x * 16 + y))
+      | _, _ => none
+  go s.toList #[]
+
+def hexOf (bs : List Nat) : String :=
+  if bs.isEmpty then "-" else
+  String.ofList ((bs.foldl (fun (acc : Array Char) b => (acc.push (hexDigit (b / 16 % 16))).push (hexDigit (b % 16))) #[]).toList)
+
+def parseList (s : String) : Option (List Nat) :=
+  if s == "-" then some [] else (s.splitOn ",").mapM parseNat
+
+def parsePairs (s : String) : Option (List (Nat × Nat)) :=
+  if s == "-" then some [] else
+  (s.splitOn ",").mapM (fun p =>
+    match p.splitOn ":" with
+    | [a, b] => do let x ← parseNat a; let y ← parseNat b; pure (x, y)
+    | _ => none)
+
+def showList (l : List Nat) : String := if l.isEmpty then "-" else ",".intercalate (l.map toString)
+def showPairs (l : List (Nat × Nat)) : String :=
+  if l.isEmpty then "-" else ",".intercalate (l.map (fun p => s!"{p.1}:{p.2}"))
+
+def us (s : String) : String := s.map (fun c => if c == ' ' then '_' else c)
+
+def stepName : Wz.Gen.FileCache.AddStep → String
+  | .createTemp => "createTemp" | .copy => "copy" | .sync => "sync" | .close => "close"
+  | .rename => "rename" | .remove => "remove" | .other s => "other:" ++ us s
+
+def showRes : CacheEntry.Res → String
+  | .ok cm => s!"ok offs={showList cm.offsets} execlen={cm.exec.length} execcrc={CacheEntry.crc32c cm.exec} sm={showPairs cm.srcMap}"
+  | .stale => "stale"
+  | .err m => "err " ++ us m
+  | .panic m => "panic " ++ us m
+
+/-- canonical view of the directory for key 0 -/
+def showDir (fs : FileCache.FS) (full : List Nat → Bool) : String :=
+  let fin := match fs.content (.final 0) with
+    | none => "none"
+    | some d => if full d then "full" else s!"part:{d.length}"
+  let temps := (List.range fs.nextNonce).filterMap (fun n => (fs.content (.temp 0 n)).map (·.length))
+  s!"final={fin} temps={showList temps}"
+
+def content (len : Nat) (v : Nat) : List Nat := List.replicate len v
+
+/-- number of micro-steps up to and including the first occurrence of `pt` in the step list -/
+def stepsUpTo (len : Nat) (pt : Wz.Gen.FileCache.AddStep) : List Wz.Gen.FileCache.AddStep → Option Nat
+  | [] => none
+  | s :: rest =>
+    let n := (FileCache.expandStep (content len 1) s).length
+    if s = pt then some n else (stepsUpTo len pt rest).map (· + n)
+
+def stepsBefore (len : Nat) (pt : Wz.Gen.FileCache.AddStep) : List Wz.Gen.FileCache.AddStep → Option Nat
+  | [] => none
+  | s :: rest =>
+    if s = pt then some 0 else (stepsBefore len pt rest).map (· + (FileCache.expandStep (content len 1) s).length)
+
+def pointSteps (point : String) (n len : Nat) : Option Nat :=
+  let ss := Wz.Gen.FileCache.addSteps
+  match point with
+  | "createTemp" => stepsUpTo len .createTemp ss
+  | "copy" => stepsUpTo len .copy ss
+  | "sync" => stepsUpTo len .sync ss
+  | "close" => stepsUpTo len .close ss
+  | "rename" => stepsUpTo len .rename ss
+  | "mid" => (stepsBefore len .copy ss).map (· + min n len)
+  | _ => none
+
+def parseKeep (s : String) : Option (Option Nat) :=
+  if s == "-" then some none else (parseNat s).map some
+
+def parseEv (s : String) : Option FileCache.Ev :=
+  if s == "d" then some (.delete 0)
+  else if s.startsWith "r" then (parseNat (s.drop 1).toString).map .run
+  else if s.startsWith "f" then (parseNat (s.drop 1).toString).map .fail
+  else none
+
+def step (st : St) (args : List String) : St × String :=
+  match args with
+  | ["steps"] =>
+    let g := Wz.Gen.FileCache.addSteps
+    let c := Wz.Gen.FileCache.addCleanup
+    (st, " ".intercalate (g.map stepName) ++ " | " ++ " ".intercalate (c.map stepName) ++
+      s!" | fresh={b2s Wz.Gen.FileCache.tempNamesFresh} fromTemp={b2s Wz.Gen.FileCache.renameFromTemp} toFinal={b2s Wz.Gen.FileCache.renameToFinal}")
+  | ["magic"] => (st, hexOf CacheEntry.magic)
+  | ["ser", v, offs, ex, sm] =>
+    match parseHexBytes v, parseList offs, parseHexBytes ex, parsePairs sm with
+    | some v, some offs, some ex, some sm =>
+      (st, hexOf (CacheEntry.serialize CacheEntry.crc32c CacheEntry.magic v ⟨offs, ex, sm⟩))
+    | _, _, _, _ => (st, "bad-op")
+  | ["deser", v, e] =>
+    match parseHexBytes v, parseHexBytes e with
+    | some v, some e => (st, showRes (CacheEntry.deserialize CacheEntry.crc32c CacheEntry.magic v e))
+    | _, _ => (st, "bad-op")
+  | ["deserfixed", v, e] =>
+    match parseHexBytes v, parseHexBytes e with
+    | some v, some e => (st, showRes (CacheEntry.deserializeSw true CacheEntry.crc32c CacheEntry.magic v e))
+    | _, _ => (st, "bad-op")
+  | ["get", v, e] =>
+    match parseHexBytes v, (if e == "none" then some none else (parseHexBytes e).map some) with
+    | some v, some e =>
+      let o := CacheEntry.getFromCache CacheEntry.crc32c CacheEntry.magic v e
+      (st, s!"code={b2s o.code.isSome} deleted={b2s o.deleted} error={(o.error.map us).getD "-"} recompiled={b2s o.recompiled}")
+    | _, _ => (st, "bad-op")
+  | ["crash", point, n, len, keep] =>
+    match parseNat n, parseNat len, parseKeep keep with
+    | some n, some len, some keep =>
+      match pointSteps point n len with
+      | none => (st, "unreachable-point")
+      | some k =>
+        let s := (FileCache.Sys.init FileCache.FS.empty (fun _ => (0, content len 1))).run (List.replicate k (.run 0))
+        let fs := match keep with | none => s.fs | some kp => s.fs.powerLoss (fun _ => kp)
+        (st, showDir fs (fun d => d == content len 1))
+    | _, _, _ => (st, "bad-op")
+  | ["sched", lens, evs, keep] =>
+    match parseList lens, (if evs == "-" then some [] else (evs.splitOn ",").mapM parseEv), parseKeep keep with
+    | some lens, some evs, some keep =>
+      let spec : Nat → Nat × List Nat := fun w => (0, content (lens.getD w 0) (w + 1))
+      let s := (FileCache.Sys.init FileCache.FS.empty spec).run evs
+      let fs := match keep with | none => s.fs | some kp => s.fs.powerLoss (fun _ => kp)
+      let full := fun d => (List.range lens.length).any (fun w => d == (spec w).2)
+      (st, showDir fs full)
+    | _, _, _ => (st, "bad-op")
+  | _ => (st, "bad-op")
 
 end Oracle.C13
